@@ -91,7 +91,12 @@ def one_case(rec, seedt, nmax):
     rec.case(desc, nontrivial=False)
     kw = api.analyzer_kwargs(desc)
     fs = desc["fs"]
-    res = api.attempt(rec, lambda: SpectrumAnalyzer(np.vstack([x, y]), fs, **kw).compute())
+    # the pair in the layouts the constructor accepts: 2xN rows, Nx2 columns, list of channels
+    lay = str(rng.choice(["2xN", "2xN", "Nx2", "list"]))
+    pair = {"2xN": np.vstack([x, y]), "Nx2": np.ascontiguousarray(np.column_stack([x, y])),
+            "list": [x, y]}[lay]
+    desc["layout"] = lay
+    res = api.attempt(rec, lambda: SpectrumAnalyzer(pair, fs, **kw).compute())
     if res is None:
         return
     if res.nf >= 3 and np.any(np.asarray(res.K) >= 2) and np.any(x != 0) and np.any(y != 0):
